@@ -126,6 +126,12 @@ func (x *c04) one(typ byte, input []byte, origin string) {
 		}
 		return
 	}
+	// what an accepted packet consists of is fixed by its own fixed header: nothing
+	// behind fixed header + remaining length belongs to it, whatever follows in the slice
+	if _, _, _, total, ferr := refcodec.Frame(input); ferr == nil && n > total {
+		x.fail(typ, origin, fmt.Sprintf("Decode consumed %d bytes, the packet (fixed header + remaining length) has %d: bytes behind the packet were taken for part of it", n, total), desc)
+		return
+	}
 	for _, s := range fieldSlices(m) {
 		if !inside(s, in, n) {
 			x.fail(typ, origin, fmt.Sprintf("a returned field lies outside the decoded packet: n=%d", n), desc)
